@@ -20,7 +20,7 @@ def curve(rng):
     if k == 'seg2': return k, LineSegment2D(P2(G.rpt2(rng, 100)), V2(G.rvec2(rng, 50)))
     if k == 'seg3': return k, LineSegment3D(P3(G.rpt3(rng, 100)), V3(G.rvec3(rng, 50)))
     a1, a2 = Bd.arc_angles(rng)
-    r = G.dy(rng.uniform(0.5, 30))
+    r = G.dy(rng.uniform(0.5, 30)) if rng.random() < 0.65 else G.dy(rng.uniform(100, 8000))      # also arcs of building / site size
     if k == 'arc2': return k, Arc2D(P2(G.rpt2(rng, 100)), r, a1, a2)
     return k, Arc3D(Bd.plane(rng), r, a1, a2)
 
